@@ -67,6 +67,24 @@ def rule_dom(run):
         if isinstance(val, ast.Call) and isinstance(val.func, ast.Attribute) and val.func.attr == 'search' and \
            len(val.args) == 1 and norm(val.args[0]) == pos:
             run.ok(key, 'delegated to quadtree.search(%s) (checked below)' % pos, where=fi.where(n)); continue
+        # delegated to a closure of this function: decided on the closure's own returns
+        if isinstance(val, ast.Call) and isinstance(val.func, ast.Name):
+            inner = [d for d in ast.walk(fi.node) if isinstance(d, ast.FunctionDef) and d is not fi.node and d.name == val.func.id]
+            if len(inner) == 1:
+                d = inner[0]
+                dparams = [a.arg for a in d.args.args]
+                # the point as the closure sees it: the enclosing variable, or the parameter the call binds it to
+                ipos = pos if pos not in dparams else None
+                for i_, a_ in enumerate(val.args):
+                    if norm(a_) == pos and i_ < len(dparams): ipos = dparams[i_]
+                pmi = parent_map(d)
+                rets = [r for r in ast.walk(d) if isinstance(r, ast.Return) and r.value is not None and
+                        not (isinstance(r.value, ast.Constant) and r.value.value is None)]
+                good = ipos is not None and rets and all(
+                    any(inb and _contains_test(i.test, norm(r.value), ipos) for i, inb in _dominating_ifs(pmi, r, d)) for r in rets)
+                if good:
+                    run.ok(key, 'delegated to the local helper %s(), each of whose %d returns is under <value>.contains_point(%s)'
+                           % (d.name, len(rets), ipos), where=fi.where(n)); continue
         doms = _dominating_ifs(pm, n, fi.node)
         if any(inb and _contains_test(i.test, norm(val), pos) for i, inb in doms):
             run.ok(key, 'under %s.contains_point(%s)' % (norm(val), pos), where=fi.where(n))
@@ -88,6 +106,25 @@ def rule_dom(run):
             doms = _dominating_ifs(pm, n, sw.node)
             if any(inb and _contains_test(i.test, norm(n.value), sw.params[1]) for i, inb in doms): run.ok(key, where=sw.where(n))
             else: run.violated(key, 'element returned without a dominating contains_point test', where=sw.where(n))
+    # the wave reaches the answer through elements that do not contain the point: which neighbours join it may depend on the
+    # leaf and on the neighbour, never on the point searched for
+    qpos = sw.params[1]
+    for n in walk_no_nested(sw.node):
+        if isinstance(n, ast.Call) and isinstance(n.func, ast.Attribute) and n.func.attr in ('append', 'add', 'insert', 'extend') and \
+           any(isinstance(l, (ast.For, ast.While)) for l, _ in [(x, 0) for x in _ancestors(pm, n)]):
+            inner_for = [x for x in _ancestors(pm, n) if isinstance(x, ast.For)]
+            if not inner_for: continue
+            tests = [x.test for x in _ancestors(pm, n) if isinstance(x, ast.If) and inner_for[0] in _ancestors(pm, x)]
+            key = 'quadtree.search_wave :: admission of a neighbour to the wave (`%s`) does not depend on the point' % norm(n)[:40]
+            dep = [t for t in tests if qpos in set(x.id for x in ast.walk(t) if isinstance(x, ast.Name))]
+            if dep:
+                run.violated(key, 'a neighbour joins the wave only if `%s`, which tests the query point: the wave stops at an element that does '
+                             'not satisfy it even when the containing column lies just beyond, so the quadtree search returns None for '
+                             'points the plain search finds' % norm(dep[0])[:80], where=sw.where(n), robust=True)
+            else: run.ok(key, [norm(t)[:80] for t in tests], where=sw.where(n))
+    run.assume('the columns that intersect a quadtree leaf rectangle are connected to the columns with their centre in it through '
+               'edge-neighbours that also intersect the rectangle (true for a conforming mesh covering the rectangle; not guaranteed '
+               'where the rectangle covers a hole or sticks out of a concave outline): completeness of the wave is not decided')
     se = prog.func('mulgrids.quadtree.search')
     rets = [norm(r.value) for r in walk_no_nested(se.node) if isinstance(r, ast.Return) and r.value is not None]
     run.check(set(rets) <= set(['leaf.search_wave(pos)', 'None']) and 'leaf.search_wave(pos)' in rets,
@@ -296,7 +333,70 @@ def rule_cacheinv(run):
                   m.name in ('column_containing_point', 'column_track', 'block_name_containing_point', 'block_contains_point', 'column_quadtree'))
 
 
+def rule_param(run):
+    run.rule('PARAM', 'line_polygon_intersections solves for (position along the polygon edge, position along the line): the crossing point is '
+             'built from the edge parameter, the edge parameter is the one tested to lie on the edge, and both ends of the line are '
+             'tested on the line parameter - the roles are read off the columns of the 2x2 system', floor=3)
+    prog = run.prog
+    fi = prog.func('geometry.line_polygon_intersections')
+    # xi = solve(A, b);  A = column_stack((E0, E1))
+    sols = [(nm, v) for nm, v, st in roles.assignments(fi.node) if isinstance(v, ast.Call) and call_name(v) == 'solve' and len(v.args) == 2]
+    if len(sols) != 1:
+        run.unknown('line_polygon_intersections :: 2x2 system', 'solve() call not found exactly once', where=fi.where()); return
+    X, sv = sols[0]
+    A = sv.args[0]
+    defs = dict((nm, v) for nm, v, st in roles.assignments(fi.node))
+    if isinstance(A, ast.Name) and A.id in defs: A = defs[A.id]
+    if not (isinstance(A, ast.Call) and call_name(A) == 'column_stack' and len(A.args) == 1 and isinstance(A.args[0], (ast.Tuple, ast.List)) and len(A.args[0].elts) == 2):
+        run.unknown('line_polygon_intersections :: 2x2 system', 'matrix is not column_stack((a, b))', where=fi.where()); return
+    cols = [norm(e) for e in A.args[0].elts]
+    def comp_index(e):
+        return e.slice.value if isinstance(e, ast.Subscript) and isinstance(e.value, ast.Name) and e.value.id == X and isinstance(e.slice, ast.Constant) \
+            and isinstance(e.slice.value, int) else None
+    # the crossing point: ... + X[k] * V  with V the direction in column k
+    kedge = None
+    for n in ast.walk(fi.node):
+        if isinstance(n, ast.BinOp) and isinstance(n.op, ast.Mult):
+            for a, b in ((n.left, n.right), (n.right, n.left)):
+                k = comp_index(a)
+                if k is not None and norm(b) in cols:
+                    key = 'line_polygon_intersections :: crossing point = edge start + %s[k] * edge direction' % X
+                    if cols[k] == norm(b): run.ok(key, {'component': k, 'direction': norm(b)}, where=fi.where(n)); kedge = k
+                    else:
+                        run.violated(key, 'the point is built from `%s`, but component %d multiplies `%s` in the system, not `%s`' % (norm(n), k, cols[k], norm(b)),
+                                     where=fi.where(n), robust=True)
+                        return
+    if kedge is None:
+        run.unknown('line_polygon_intersections :: crossing point', 'expression %s[k] * direction not found' % X, where=fi.where()); return
+    kline = 1 - kedge
+    # tests
+    for n in ast.walk(fi.node):
+        if isinstance(n, ast.If) and isinstance(n.test, ast.Subscript) and norm(n.test.value) == fi.params[2] and isinstance(n.test.slice, ast.Constant):
+            end = n.test.slice.value
+            used = sorted(set(comp_index(x) for x in ast.walk(ast.Module(body=n.body, type_ignores=[])) if comp_index(x) is not None))
+            key = 'line_polygon_intersections :: end %d of the line is tested on the line parameter %s[%d]' % (end, X, kline)
+            if used == [kline]: run.ok(key, where=fi.where(n))
+            elif used:
+                run.violated(key, 'the test for end %d of the line reads %s%s, the position along the polygon *edge*: a crossing beyond that end of the '
+                             'line is accepted (and one on the line can be rejected), so column_track lists columns the line does not reach'
+                             % (end, X, used), where=fi.where(n), robust=True)
+            else: run.unknown(key, 'no component of %s tested' % X, where=fi.where(n))
+    units = [c for c in ast.walk(fi.node) if isinstance(c, ast.Call) and call_name(c) == 'in_unit' and len(c.args) == 1 and comp_index(c.args[0]) is not None]
+    key = 'line_polygon_intersections :: the edge parameter is tested to lie on the edge'
+    if not units: run.unknown(key, 'in_unit(%s[k]) not found' % X, where=fi.where())
+    elif all(comp_index(c.args[0]) == kedge for c in units): run.ok(key, where=fi.where(units[0]))
+    else: run.violated(key, 'in_unit() is applied to %s[%d], the position along the line' % (X, kline), where=fi.where(units[0]), robust=True)
+
+
+def _ancestors(pm, n):
+    out = []
+    while n in pm:
+        n = pm[n]; out.append(n)
+    return out
+
+
 def check(run):
+    run.guarded('PARAM', rule_param)
     run.guarded('CACHEINV', rule_cacheinv)
     run.guarded('DOM', rule_dom)
     run.guarded('HALFOPEN', rule_halfopen)
